@@ -41,9 +41,12 @@ type dupOut struct {
 	// retry: the episode says nothing (under load the outside caller only got to run after the
 	// flight had already ended, so it legitimately fetched on its own); it is run again
 	retry bool
-	line  string
-	hits  []string
-	fails [][3]string // key, op, what
+	// timeout: a watchdog fired (a caller or the later read did not return in time); such an episode is
+	// run a second time and only reported if a watchdog fires again (a starved machine also looks like this)
+	timeout bool
+	line    string
+	hits    []string
+	fails   [][3]string // key, op, what
 }
 
 const dupWatchdog = 2500 * time.Millisecond
@@ -178,11 +181,19 @@ func dupEpisode(tc dupCase) (out dupOut) {
 	}()
 	<-started
 	time.Sleep(40 * time.Millisecond)
+	// the flight is still pending here: a second GET a up to now would be a duplicate request for a pending flight
+	getsPending := countGets(srv, "a")
+	if bctx.Err() != nil {
+		out.retry = true // starved machine: the batch's ctx expired before the outside caller had its 40 ms to join
+	}
 	switch tc.fail {
 	case "ctx": // the owner gives up first, the reply comes afterwards
 		select {
 		case <-batchDone:
 		case <-time.After(time.Second):
+			// the batch has not noticed its expired ctx yet (starved machine): with the reply released now it
+			// may still complete normally, which says nothing about a failing request
+			out.retry = true
 		}
 	case "drop":
 		for id := 1; id <= srv.NumConns(); id++ {
@@ -191,7 +202,6 @@ func dupEpisode(tc dupCase) (out dupOut) {
 			}
 		}
 	}
-	getsAtRelease := countGets(srv, "a") // a second GET a up to here would be a duplicate request for a pending flight
 	close(gate)
 	watchdog := time.After(dupWatchdog)
 	bOK, wOK := false, false
@@ -230,15 +240,28 @@ func dupEpisode(tc dupCase) (out dupOut) {
 		count(*wres)
 	}
 	gets := countGets(srv, "a")
-	if getsAtRelease <= 1 && gets > getsAtRelease {
-		// a GET a that was sent only after the flight had ended: the outside caller came too late to join
+	if getsPending <= 1 && gets > getsPending {
+		// a GET a that was sent only after the flight had ended (reply released / owner's ctx expired / connection
+		// killed): the outside caller came too late to join
 		out.retry = true
 	}
 	// the LATER read
-	lctx, lcancel := context.WithTimeout(ctx, dupWatchdog)
-	lr := client.DoCache(lctx, client.B().Get().Key("a").Cache(), ttl)
-	lv, lerr := lr.ToString()
-	lcancel()
+	var lr rueidis.RedisResult
+	var lv string
+	var lerr error
+	for try := 0; ; try++ {
+		lctx, lcancel := context.WithTimeout(ctx, dupWatchdog)
+		lr = client.DoCache(lctx, client.B().Get().Key("a").Cache(), ttl)
+		lv, lerr = lr.ToString()
+		lcancel()
+		// after a killed connection this client (retries are disabled) may still hand the call to the dying
+		// pipe and answer with a connection error; that is not a statement about the flight: ask again
+		if _, isRedis := rueidis.IsRedisErr(lerr); tc.fail != "drop" || lerr == nil || isRedis || errors.Is(lerr, context.DeadlineExceeded) || try == 20 {
+			break
+		}
+		out.hits = append(out.hits, "dup:later-read-repeated-after-connection-error")
+		time.Sleep(5 * time.Millisecond)
+	}
 	laterReturned := !errors.Is(lerr, context.DeadlineExceeded)
 	laterHit, laterOk := lr.IsCacheHit(), lerr == nil && lv == "a|1"
 	laterGets := countGets(srv, "a") - gets
@@ -258,6 +281,7 @@ func dupEpisode(tc dupCase) (out dupOut) {
 	detail := fmt.Sprintf("batch results %v, outside waiter %v, later read value %q err %v", bres, wres, lv, lerr)
 	switch {
 	case returned != n:
+		out.timeout = true
 		var who []string
 		if !bOK {
 			who = append(who, "the DoMultiCache batch")
@@ -271,6 +295,7 @@ func dupEpisode(tc dupCase) (out dupOut) {
 			failf("cachee2e:flight-dead:duplicate-in-batch", op, "%s: a later DoCache(GET a) joined the dead flight and timed out after %v (the entry stayed pending)", desc, dupWatchdog)
 		}
 	case !laterReturned:
+		out.timeout = true
 		failf("cachee2e:flight-dead:duplicate-in-batch", op, "%s: a later DoCache(GET a) timed out after %v (the entry stayed pending); %s", desc, dupWatchdog, detail)
 	case !good:
 		failf("cachee2e:flight-result:duplicate-in-batch", op, "%s: %s", desc, detail)
@@ -307,26 +332,33 @@ func runFlightDup(c *Ctx) {
 		}
 	}
 	// episodes are independent (own server, own client): a few run side by side so that hanging ones
-	// (2 x 2.5 s of watchdog each) do not add up; results are emitted in case order
+	// (2 x 2.5 s of watchdog each, run twice) do not add up; results are emitted in case order
 	outs := make([]dupOut, len(cases))
-	sem := make(chan struct{}, 6)
+	sem := make(chan struct{}, 8)
 	var wg sync.WaitGroup
 	for i := range cases {
 		wg.Add(1)
 		sem <- struct{}{}
 		go func(i int) {
 			defer wg.Done()
-			repeats := 0
-			for {
-				if outs[i] = dupEpisode(cases[i]); !outs[i].retry || repeats == 4 {
-					break
+			var notes []string
+			timeouts := 0
+			for attempt := 0; ; attempt++ {
+				outs[i] = dupEpisode(cases[i])
+				if outs[i].retry && attempt < 5 {
+					notes = append(notes, "dup:inconclusive-run-repeated(outside caller too late / ctx expiry unnoticed)")
+					time.Sleep(50 * time.Millisecond)
+					continue
 				}
-				repeats++
-				time.Sleep(50 * time.Millisecond)
+				if outs[i].timeout {
+					if timeouts++; timeouts < 2 && attempt < 5 {
+						notes = append(notes, "dup:watchdog-fired-run-repeated")
+						continue
+					}
+				}
+				break
 			}
-			for ; repeats > 0; repeats-- {
-				outs[i].hits = append(outs[i].hits, "dup:inconclusive-run-repeated(outside caller too late)")
-			}
+			outs[i].hits = append(outs[i].hits, notes...)
 			<-sem
 		}(i)
 	}
